@@ -483,11 +483,11 @@ impl Prop for C16P {
         "C16"
     }
     fn rule(&self) -> String {
-        "configurations of 2-3 real threads x up to 3 operations from {get, push, len, contains, swap, concat, ==, clone+drop} on 2 shared List<u64> with initial lengths at capacity boundaries (0, 1, 3, 4, 7, 8) x a generated schedule; the harness owns the schedule through hook verif::sched: threads run one at a time and hand over the baton between operations, after an element pointer escaped from get and between the two critical sections of concat; oracles: stale-pointer monitor (a pointer is read after a reallocation or free of its buffer that happened since it escaped: detected from events, the read is not performed) and brute-force linearizability against the shared-vector model. Non-trivial: at least one context switch happened inside an operation; distinct by (configuration, schedule)".into()
+        "configurations of 2-3 real threads x up to 3 operations from {get, push, len, contains, swap, concat, ==, clone+drop} on 2 shared List<u64> with initial lengths at capacity boundaries (0, 1, 3, 4, 7, 8) x a generated schedule; the harness owns the schedule through hook verif::sched: threads run one at a time and hand over the baton between operations and at the scheduling points the implementation reports; oracles: stale-pointer monitor over the hook's buffer events and brute-force linearizability against the shared-vector model. A second, hook-free engine (one case in eight) lets real threads race on fresh lists of drop-tracked elements at capacity boundaries (mutators: push from Rust / script, two pushes, two pushers on the last free slot, overlapping swaps, clone+drop of a handle, nobody; readers: == in both orders, !=, contains, index, len, is_empty, to_vec, get, concat and + from Rust and from scripts), with freed memory poisoned by the harness allocator: a stale read shows as use of garbage, results must be consistent with some order, the final list must be a permutation of the original elements plus the pushed ones, len <= capacity, tracked elements balance. Non-trivial: a context switch happened inside an operation (scheduler engine) or two threads overlapped in time (free-running engine); distinct by (configuration, schedule)".into()
     }
     fn assumptions(&self) -> Vec<String> {
         vec![
-            "interleavings are explored at hook granularity only (between operations, in get's pointer window, between concat's critical sections); code inside a critical section is atomic by the mutex".into(),
+            "the scheduler engine explores interleavings at hook granularity only (between operations and at reported points); since the repairs of C16-F1 and C16-F2 no operation reports a point inside its critical section, so races inside operations are the free-running engine's job, which samples the schedules the OS produces (a race with a window of a few instructions may need the thorough tier)".into(),
             "every reallocation during the pointer window counts as a relocation (whether realloc moves the buffer is allocator-dependent)".into(),
             "script-side get (ffi::list_get) is covered by the same hook events but driven here through the Rust API only".into(),
         ]
